@@ -34,6 +34,46 @@ def _summary(log):
     return d, txt
 
 
+def _members(b):
+    """[(start, [(record offset, payload end, record end)...], header offset, end of data)] of a plain tar stream; None if it cannot be
+    split with certainty (old GNU sparse members have extension blocks the size field does not cover)"""
+    out = []
+    pos = 0
+    recs = []
+    start = None
+    while pos + 512 <= len(b):
+        h = b[pos:pos + 512]
+        if not any(h):
+            break
+        try:
+            size = int(h[124:136].rstrip(b" \0") or b"0", 8)
+        except ValueError:
+            return None
+        tf = h[156:157]
+        if tf == b"S" or h[124] & 0x80:
+            return None
+        if start is None:
+            start = pos
+        ln = 512 + (size + 511) // 512 * 512
+        if tf == b"x" and b" size=" in b[pos + 512:pos + 512 + size]:
+            return None     # the size field of the following header is overridden
+        if tf in (b"L", b"K", b"x"):
+            recs.append((pos, pos + 512 + size, pos + ln))
+        elif tf == b"g":
+            # a global header belongs to no member
+            if not recs:
+                start = None
+        else:
+            if tf in (b"1", b"2", b"3", b"4", b"5", b"6"):
+                size = 0
+                ln = 512
+            out.append((start, recs, pos, pos + 512 + size))
+            recs = []
+            start = None
+        pos += ln
+    return out
+
+
 def check_case(case, opts):
     shim = opts["shim"]
     kind = case["kind"]
@@ -118,6 +158,44 @@ def check_case(case, opts):
                     delivered += 1 if d_ else 0
             if total:
                 classes.append("cls_" + cls)
+        # ---- truncated input: the archive ends inside a member (inside an extension record or its padding, inside the
+        # header, or before the last byte of the member's data).  Cuts at member boundaries and in the zero padding behind a
+        # member's data lose nothing and are not judged.
+        if kind == "t2s" and not case.get("codec"):
+            data = ctx["stdin"]
+            members = _members(data)
+            cuts = []
+            for (ms, recs, hdr, dend) in members or []:
+                for (ro, rpayload_end, rend) in recs:
+                    cuts += [ro + 100, ro + 512 + max(0, (rpayload_end - ro - 512) // 2), rpayload_end, min(rend - 1, rpayload_end + 7), rend - 1, rend]
+                cuts += [hdr + 1, hdr + 300, hdr + 511]
+                if dend > hdr + 512:
+                    cuts += [hdr + 512, hdr + 512 + (dend - hdr - 512) // 2, dend - 1]
+            cuts = sorted(set(c for c in cuts if any(ms < c < dend for ms, _, _, dend in members or [])))
+            if len(cuts) > 60:
+                step = len(cuts) / 60.0
+                cuts = sorted(set(cuts[int(i * step)] for i in range(60)))
+            for c in cuts:
+                ctx2 = dict(ctx, stdin=data[:c])
+                n[0] += 1
+                d = os.path.join(sc, "r%d" % n[0])
+                os.mkdir(d)
+                o = scenarios.run(ctx2, d, variant="asan", timeout=40)
+                vcommon.shutil.rmtree(d, ignore_errors=True)
+                what = "input that ends inside a member (%d of %d bytes)" % (c, len(data))
+                if o.timeout:
+                    raise Violation("t2s hangs on %s" % what, None, sig="hang")
+                if o.san:
+                    raise Violation("t2s crashes on %s: %s" % (what, o.san), o.err.decode(errors="replace")[-2000:], sig="crash")
+                if o.rc == 0:
+                    raise Violation("t2s exits with status 0 on %s" % what, None, sig="truncated-accepted")
+                if not o.err.strip():
+                    raise Violation("t2s fails on %s without any diagnostic" % what, None, sig="no-diagnostic")
+                if o.exists:
+                    raise Violation("t2s fails on %s but leaves its partial output file behind" % what, None, sig="output-left")
+                delivered += 1
+            if cuts:
+                classes.append("truncated_input")
         # ---- allocation faults (project allocations only; -j 1 keeps the numbering deterministic)
         o1, s1, _ = go(env=dict(VERIF_ALLOC_COUNT="1"), variant="allocfault")
         o2, s2, _ = go(env=dict(VERIF_ALLOC_COUNT="1"), variant="allocfault")
